@@ -1334,6 +1334,91 @@ theorem round3Go_spec (U : UData) (F : Font) (K : Consts) (rest pre : List Info)
         simp
 
 
+/-! ## Part 7b: one cluster through the three rounds -/
+
+theorem takeWhile_all {α : Type} (p : α → Bool) (l : List α) (h : ∀ x ∈ l, p x = true) : l.takeWhile p = l := by
+  induction l with
+  | nil => rfl
+  | cons a l ih =>
+    simp only [List.takeWhile_cons, h a List.mem_cons_self, ↓reduceIte]
+    rw [ih (fun x hx => h x (List.mem_cons_of_mem _ hx))]
+
+theorem dropWhile_all {α : Type} (p : α → Bool) (l : List α) (h : ∀ x ∈ l, p x = true) : l.dropWhile p = [] := by
+  induction l with
+  | nil => rfl
+  | cons a l ih =>
+    simp only [List.dropWhile_cons, h a List.mem_cons_self, ↓reduceIte]
+    exact ih (fun x hx => h x (List.mem_cons_of_mem _ hx))
+
+/-- first round on one cluster `base + marks`: everything goes through `decompose_current_character`
+    (with `shortest = always_short_circuit`), and `all_simple` becomes false -/
+theorem round1_cluster (U : UData) (F : Font) (K : Consts) (fuel : Nat) (might always : Bool)
+    (s m : Info) (ms : List Info) (flags : Nat) (as : Bool)
+    (hm : ∀ x ∈ m :: ms, x.isMark = true) (hvs : ∀ x ∈ s :: m :: ms, U.isVS x.cp = false) :
+    round1 U F K fuel might always (s :: m :: ms) flags as =
+      match decomposeRun U F K fuel always (s :: m :: ms) flags with
+      | none => none
+      | some (o, f) => some (o, f, false) := by
+  rw [round1]
+  have h1 : (m :: ms).takeWhile (fun i => !i.isMark) = [] := by
+    simp [hm m List.mem_cons_self]
+  have h2 : (m :: ms).dropWhile (fun i => !i.isMark) = m :: ms := by
+    simp [hm m List.mem_cons_self]
+  simp only [h1]
+  split
+  · rename_i h; rw [h2] at h; cases h
+  · rename_i z zs h
+    rw [h2] at h
+    cases h
+    simp only [splitLast, simpleRun]
+    have h3 : (m :: ms).takeWhile (fun i => i.isMark) = m :: ms := takeWhile_all _ _ hm
+    have h4 : (m :: ms).dropWhile (fun i => i.isMark) = [] := dropWhile_all _ _ hm
+    rw [h3, h4]
+    unfold multiCharCluster
+    have h5 : (s :: m :: ms).any (fun i => U.isVS i.cp) = false := by
+      rw [List.any_eq_false]; intro x hx; simp [hvs x hx]
+    rw [h5]
+    simp only [Bool.false_eq_true, ↓reduceIte]
+    cases decomposeRun U F K fuel always (s :: m :: ms) flags with
+    | none => rfl
+    | some r =>
+      obtain ⟨o, f⟩ := r
+      simp only
+      rw [round1]
+      simp
+
+theorem normalize_cluster (U : UData) (F : Font) (K : Consts) (fuel pref : Nat)
+    (s m : Info) (ms : List Info) (flags : Nat)
+    (hm : ∀ x ∈ m :: ms, x.isMark = true) (hvs : ∀ x ∈ s :: m :: ms, U.isVS x.cp = false) :
+    normalize U F K fuel pref (s :: m :: ms) flags =
+      match decomposeRun U F K fuel (pref == 0) (s :: m :: ms) flags with
+      | none => none
+      | some (o, f) =>
+        if pref = 2 ∨ pref = 3 ∨ pref = 4 then
+          some (round3 U F K (if f &&& K.flagCGJ ≠ 0 then cgjRound (round2 K o) else round2 K o) f)
+        else some (if f &&& K.flagCGJ ≠ 0 then cgjRound (round2 K o) else round2 K o, f) := by
+  unfold normalize
+  simp only [List.isEmpty_cons, Bool.false_eq_true, ↓reduceIte]
+  rw [round1_cluster U F K fuel _ _ s m ms flags true hm hvs]
+  have halways : ((if pref = 4 then 2 else pref) == 0) = (pref == 0) := by
+    by_cases h4 : pref = 4
+    · subst h4; rfl
+    · simp [h4]
+  rw [halways]
+  cases decomposeRun U F K fuel (pref == 0) (s :: m :: ms) flags with
+  | none => rfl
+  | some r =>
+    obtain ⟨o, f⟩ := r
+    simp only [Bool.not_false, ↓reduceIte, Bool.true_and]
+    by_cases h4 : pref = 4
+    · subst h4; simp
+    · by_cases h2 : pref = 2
+      · subst h2; simp
+      · by_cases h3 : pref = 3
+        · subst h3; simp
+        · simp [h4, h2, h3]
+
+
 /-! ## Part 8: generated-table facts used by C09_tables_consistent -/
 
 set_option maxRecDepth 100000 in
